@@ -122,6 +122,14 @@ func (s *objectStore) delete(o Object) {
 	}
 }
 
+// drop forgets all the objects of a type
+func (s *objectStore) drop(of Object) {
+	s.Lock()
+	defer s.Unlock()
+
+	delete(s.m, stype(of))
+}
+
 func (s *objectStore) count(of Object) (n int) {
 	s.RLock()
 	defer s.RUnlock()
@@ -231,13 +239,26 @@ func (db *DB) loadSchema(of Object) (s *Schema, err error) {
 
 func (db *DB) startAsyncWritesRoutine(s *Schema) {
 	step := time.Millisecond * 100
-	if s.asyncWritesEnabled() && !s.AsyncWrites.routineStarted {
-		s.AsyncWrites.routineStarted = true
+	if s.asyncWritesEnabled() && !s.asyncRoutineStarted {
+		s.asyncRoutineStarted = true
 		go func() {
 			for db.ctx.Err() == nil {
 				for slept := time.Duration(0); ; slept += step {
-					n := db.safeCountPendingAsyncW(s.object)
-					if n >= s.AsyncWrites.Threshold || slept >= s.AsyncWrites.Timeout {
+					n, threshold, timeout, enabled := db.safeAsyncState(s)
+					if !enabled {
+						// async writes have been disabled by a new call to Create.
+						// The routine stops, it is started again by the next access
+						// to the schema if async writes are enabled again.
+						db.Lock()
+						if !s.asyncWritesEnabled() {
+							s.asyncRoutineStarted = false
+							db.Unlock()
+							return
+						}
+						db.Unlock()
+						break
+					}
+					if n >= threshold || slept >= timeout {
 						// enter critical section
 						db.Lock()
 						// checking db.ctx not to race with db.Close function
@@ -255,6 +276,17 @@ func (db *DB) startAsyncWritesRoutine(s *Schema) {
 			}
 		}()
 	}
+}
+
+// safeAsyncState returns the number of pending async writes along with
+// the current async settings of the schema (Create can change them)
+func (db *DB) safeAsyncState(s *Schema) (n, threshold int, timeout time.Duration, enabled bool) {
+	db.RLock()
+	defer db.RUnlock()
+	if !s.asyncWritesEnabled() {
+		return
+	}
+	return db.asyncw.count(s.object), s.AsyncWrites.Threshold, s.AsyncWrites.Timeout, true
 }
 
 func (db *DB) safeCountPendingAsyncW(of Object) (n int) {
@@ -554,6 +586,20 @@ func (db *DB) Create(o Object, s Schema) (err error) {
 		// update existing schema with changes
 		if err = es.update(&s); err != nil {
 			return
+		}
+
+		// async writes have been switched off: pending objects must be
+		// written now, nobody would look for them in the pending store
+		if !es.asyncWritesEnabled() {
+			if err = db.flushAll(o); err != nil {
+				return
+			}
+		}
+
+		// objects are not cached anymore: what is in the cache would not
+		// be maintained and be stale if the cache is enabled again
+		if !es.mustCache() {
+			db.cache.drop(o)
 		}
 
 		return db.saveSchema(o, es, true)
